@@ -424,6 +424,10 @@ def carrier(kind, cfg, seqn, mode, sib):
         d.update(kw)
         return d
     x = N('X', mode=mode, params=[['a', ['in', 'N0']]], retry=cfg, plan={'fail': list(seqn)})
+    if mode == 'async' and sib == 'slow':
+        x['plan']['work'] = 0.2      # every attempt takes virtual time: the pause counts from the END of the failed attempt
+    if (cfg.get('use_default') and len(seqn) % 2 == 1):
+        x['plan']['default_none'] = True    # get_default legitimately returns None
     nodes = {'N0': N('N0', plain_params=['x'], mode='inline'), 'X': x}
     if kind == 'chain':
         nodes['OUT'] = N('OUT', mode='async', params=[['a', ['in', 'X']]])
